@@ -160,7 +160,7 @@ def run(ctx):
     for case in mine:
         body(case, ctx.rec, 400, 8)
     cap = 120 if ctx.quick else 400
-    n = ctx.share(64 if ctx.quick else 240)
+    n = ctx.share(192 if ctx.quick else 640)
     explore(ctx, cases(30 if ctx.quick else 60), lambda c, r: body(c, r, cap, 24), n)
 
 
